@@ -422,6 +422,12 @@ func (e *EvalCtx) equal(a, b Val) string {
 	}
 	x := e.toS(a)
 	y := e.toS(b)
+	if isFloat(x.Ty) && y.T == "0" {
+		y = S{"flt_zero", x.Ty}
+	}
+	if isFloat(y.Ty) && x.T == "0" {
+		x = S{"flt_zero", y.Ty}
+	}
 	sx, sy := sortOfType(x.Ty), sortOfType(y.Ty)
 	if sx != sy {
 		e.fail("comparison between %s and %s", x.Ty, y.Ty)
